@@ -539,6 +539,10 @@ func genEPUB(c *fw.Ctx, idx int, o genOpts) ([]byte, *pkgModel) {
 			p.Req = append(p.Req, t)
 		}
 		f.add("hrefstyle=" + ch.Style.String())
+		if rs.Intn(6) == 0 { // media type names are case-insensitive (RFC 2045 5.1)
+			ch.MediaType = []string{"Application/XHTML+XML", "application/XHTML+xml"}[rs.Intn(2)]
+			f.add("media-type-other-case")
+		}
 		return ch, p
 	}
 	for i, path := range declared {
